@@ -176,8 +176,10 @@ type client struct {
 	sent  map[uint32]hrpc.Call
 
 	// inFlight is number of rpcs sent to regionserver awaiting response
+	// It is signed because a response can be received and accounted for
+	// (inFlightDown) before the sender of its request gets to inFlightUp.
 	inFlightM sync.Mutex // protects inFlight and SetReadDeadline
-	inFlight  uint32
+	inFlight  int32
 
 	id uint32
 
@@ -255,10 +257,14 @@ func (c *client) String() string {
 func (c *client) inFlightUp() error {
 	c.inFlightM.Lock()
 	c.inFlight++
-	// we expect that at least the last request can be completed within readTimeout
-	if err := c.conn.SetReadDeadline(time.Now().Add(c.readTimeout)); err != nil {
-		c.inFlightM.Unlock()
-		return err
+	// we expect that at least the last request can be completed within readTimeout.
+	// If the response to this request has already been processed there is nothing
+	// to wait for and the deadline must stay as it is.
+	if c.inFlight > 0 {
+		if err := c.conn.SetReadDeadline(time.Now().Add(c.readTimeout)); err != nil {
+			c.inFlightM.Unlock()
+			return err
+		}
 	}
 	c.inFlightM.Unlock()
 	return nil
@@ -806,7 +812,7 @@ func (c *client) MarshalJSON() ([]byte, error) {
 		ConnectionRemoteAddress: remoteAddr,
 		RegionServerAddress:     c.addr,
 		ClientType:              c.ctype,
-		InFlight:                inFlight,
+		InFlight:                uint32(max(inFlight, 0)),
 		Id:                      atomic.LoadUint32(&c.id),
 		Done_status:             done_status,
 	}
